@@ -171,7 +171,14 @@ def genC(rng):
     sizes = [rng.choice((1, 2, 3, 5, 11, 40, 500)) for _ in range(rng.randrange(1, 5))]
     sc = {"part": "C", "threads": nthreads, "msgs": msgs, "sizes": sizes, "spread": rng.choice((0, 0, 1, 64, 4096)),
           "policy": _policy(rng), "seed": rng.randrange(1 << 30)}
-    if rng.random() < 0.25:
+    if rng.random() < 0.2:
+        # the frame-level call from several threads: unfragmented messages only (reassembly across threads is not promised
+        # for recv_frame), every frame must reach exactly one caller intact
+        sc["api"] = "recv_frame"
+        for m in sc["msgs"]:
+            m["frags"] = 1
+            m["ping_inside"] = False
+    elif rng.random() < 0.25:
         # finite socket timeout; fragments of one message trickle in at gaps shorter than the timeout, the whole message
         # taking longer than the timeout: the receiver holding the message is busy, the others wait
         sc["timeout"] = 2 * S
@@ -432,11 +439,21 @@ def runC(sc, choices):
             c.settimeout(int(tmo) / S)
         c.connect(f"ws://{HOST}/")
         ntimeouts = [0]
+        ctrl_seen = []
+
+        use_frames = sc.get("api") == "recv_frame"
 
         def worker(t):
             while True:
                 try:
-                    m = c.recv()
+                    if use_frames:
+                        f_ = c.recv_frame()
+                        if f_.opcode in (9, 10):
+                            ctrl_seen.append((f_.opcode, bytes(f_.data)))
+                            continue
+                        m = bytes(f_.data).decode() if f_.opcode == 1 else bytes(f_.data)
+                    else:
+                        m = c.recv()
                     got[t].append(m)
                     if len(got[t]) > 50:
                         ends[t] = "runaway"
@@ -491,7 +508,11 @@ def runC(sc, choices):
             res.violate("receiver_did_not_end_with_connection_closed", ctx, f"thread endings {ends}")
         pongs = [f.payload for f in frames if f.opcode == 10]
         others = [f.brief() for f in frames if f.opcode != 10]
-        if (pongs != pings or others or tail) and not res.violations:
+        if sc.get("api") == "recv_frame":
+            # recv_frame never replies; the pings themselves must have been handed out intact
+            if sorted(p_ for o_, p_ in ctrl_seen if o_ == 9) != sorted(pings) and not res.violations:
+                res.violate("message_not_delivered_intact_exactly_once", ctx, f"ping frames handed to callers {ctrl_seen[:4]} vs sent {pings[:4]}")
+        elif (pongs != pings or others or tail) and not res.violations:
             res.violate("pongs_differ_from_pings", ctx, f"pings {len(pings)} pongs {len(pongs)} other frames {others[:3]} tail {len(tail)}")
     res.nontrivial = bool(w.k.switches)
     res.sig = repr(("C", nthreads, res.sched))
@@ -500,7 +521,7 @@ def runC(sc, choices):
 
 
 def sample_view(sc, r):
-    v = {k: sc.get(k) for k in ("part", "threads", "policy", "accept", "sizes", "spread", "send_stall", "timeout", "frag_gap")}
+    v = {k: sc.get(k) for k in ("part", "threads", "policy", "accept", "sizes", "spread", "send_stall", "timeout", "frag_gap", "api")}
     if sc.get("part") == "B":
         v["sends"] = sc.get("sends")
     else:
